@@ -515,6 +515,24 @@ func Reference(c Case) Expect {
 			e.Cond = apd.Inexact
 		}
 		e.ExpSet, e.ExpWant = true, 0
+	case "ceil", "floor":
+		// exact ceiling / floor as an integer; defined when the integer part fits P
+		n, inexact := ref.DivRound(c.X.Big(), big.NewInt(1), int64(c.X.Exp), 0, "down", false)
+		if ctx.P > 0 && ref.NDigits(n)+1 > int64(ctx.P) && n.Sign() != 0 {
+			// the integer part (or the integer part plus one) may not fit: outside the quantifier
+			if ref.NDigits(new(big.Int).Add(n, big.NewInt(1))) > int64(ctx.P) {
+				return e
+			}
+		}
+		if inexact && (c.Op == "ceil") != c.X.Neg {
+			n.Add(n, big.NewInt(1)) // away from zero
+		}
+		if n.Sign() != 0 && ref.NDigits(n)-1 > int64(ctx.Emax) {
+			return e
+		}
+		e.Defined = true
+		e.Limit = NearLimit(c, nil)
+		e.R = ref.Result{Form: apd.Finite, Neg: c.X.Neg, Coeff: n, Exp: 0, Inexact: inexact}
 	case "sqrt":
 		if c.X.Neg && !c.X.IsZero() {
 			e.Defined, e.NaN, e.Cond = true, true, apd.InvalidOperation
